@@ -12,9 +12,10 @@ CONSTANTS
  Chunks = {1, 7}
  LyingSizes = TRUE
  InlineData = TRUE
- Conc = 64
+ Conc = 3
  Probes = TRUE
  Exts = {TRUE, FALSE}
+ KeepSlots = FALSE
 INIT GInit
 NEXT GNext
 INVARIANTS Emit
